@@ -289,7 +289,10 @@ def main():
         return do_replay(prop, a.replay)
 
     budget = 20.0 if tier == "quick" else 90.0
-    jobs = [(m, k, budget, os.path.join(outdir, "vc"), prop) for (m, k) in cfg.DEDUCTIVE if not a.only or a.only in k]
+    # an entry (module, key, "thorough") is verified in the thorough tier only (functions whose VCs need more than the quick limit)
+    skipped_quick = [e[1] for e in cfg.DEDUCTIVE if len(e) > 2 and e[2] == "thorough" and tier == "quick"]
+    jobs = [(e[0], e[1], budget, os.path.join(outdir, "vc"), prop) for e in cfg.DEDUCTIVE
+            if (not a.only or a.only in e[1]) and not (len(e) > 2 and e[2] == "thorough" and tier == "quick")]
     results = run_jobs(jobs, 420 if tier == "quick" else 2400)
 
     # ---- expected floor (vacuity / stale contract guard)
@@ -442,6 +445,7 @@ def main():
         "bounded": {k: v for k, v in (bounded or {}).items() if k not in ("violations", "samples")} if bounded else None,
         "explanation": cfg.EXPLANATION,
         "deductive_seed_independent": True,
+        "verified_in_thorough_tier_only": skipped_quick,
     }
     if bounded and "cases" in bounded:
         cov["evaluations"] = int(bounded.get("cases", 0))
